@@ -110,7 +110,7 @@ class FnCtx:
         self.prog = prog
         self.types = prog.types
         self.fnkey = fnkey
-        self.fn = prog.funcs[fnkey]
+        self.fn = prog.funcs[fnkey.split('#')[0]]
         self.cfg = CFG(self.fn)
         self.contract = prog.cs.funcs.get(fnkey) or C.FuncContract(fnkey, fnkey.split('::')[0], '', 0)
         self.opts = opts or Opts()
